@@ -35,6 +35,7 @@ import (
 	"github.com/yorkie-team/yorkie/pkg/key"
 	"github.com/yorkie-team/yorkie/server/clients"
 	"github.com/yorkie-team/yorkie/server/documents"
+	"github.com/yorkie-team/yorkie/server/packs"
 
 	"verifharness/kit"
 	"verifharness/prog"
@@ -514,7 +515,16 @@ func execute(w Workload) (fail *kit.Failure, ev map[string]int, hist []string) {
 				if err != nil || di.ServerSeq < 2 {
 					continue
 				}
-				if _, err := documents.GetDocumentByServerSeq(ctx, s.BE, proj, k, 1+int64(i)%(di.ServerSeq-1)); err != nil {
+				// under the document's read lock, like the admin handlers that serve history views
+				dl := s.BE.Lockers.LockerWithRLock(packs.DocKey(proj.ID, k))
+				di, err = documents.FindDocInfoByKey(ctx, s.BE, proj, k)
+				if err != nil || di.ServerSeq < 2 {
+					dl.RUnlock()
+					continue
+				}
+				_, err = documents.GetDocumentByServerSeq(ctx, s.BE, proj, k, 1+int64(i)%(di.ServerSeq-1))
+				dl.RUnlock()
+				if err != nil {
 					fails <- kit.Failf("HISTVIEWFAIL", "%v", err)
 					return
 				}
@@ -1060,6 +1070,7 @@ func TestReplay(t *testing.T) {
 		"lifecase":   replayLife,
 		"lockscript": replayLockScript,
 		"inflight":   replayInflight,
+		"snaprace":   replaySnapRace,
 		"workload": func(raw json.RawMessage) *kit.Failure {
 			var w Workload
 			if err := json.Unmarshal(raw, &w); err != nil {
